@@ -5,6 +5,8 @@
    observation:  <left> <finish> <post> <n> <t0,t1,...|->      (offsets from Start's instant, ns)
                  or panic / toomany
 
+                 fact <K> <a|s|r> <case>: K observations " | "-separated, one per product of the rps factory
+
    Verdict = spec_b (extracted from Model/Sched.v) on the implementation's observation with the
    tolerance of DESIGN.md section 3: tol = 1 ns + D * 2^-40 on token times, relative 2^-40 on
    the integral before it is rounded down to the token count. Finish instant, Left, range
@@ -199,6 +201,24 @@ let predict (c : string) (obs : string) : string * string * bool =
        | _ ->
            let (p, _, _) = predict_seq inner_c "" in
            (p ^ " 1 1 1 1 1 -", "BAD:implementation " ^ obs, false))
+  | "fact" :: k :: _mode :: inner when inner <> [] && int_of_string_opt k <> None ->
+      (* K products of the pool's rps factory (rps-per-instance): every product is judged on its own by the
+         specification of the configured profile, exactly as a directly constructed schedule is *)
+      let k = (match int_of_string_opt k with Some k -> k | None -> 0) in
+      let inner_c = String.concat " " inner in
+      let segs = List.map String.trim (String.split_on_char '|' obs) in
+      if List.length segs <> k then
+        let (p, _, _) = predict_seq inner_c "" in
+        (String.concat " | " (List.init (max k 1) (fun _ -> p)), "BAD:implementation " ^ obs, false)
+      else begin
+        let rs = List.map (predict_seq inner_c) segs in
+        let line = String.concat " | " (List.map (fun (p, _, _) -> p) rs) in
+        let rec first j = function
+          | [] -> "ok"
+          | (_, v, _) :: r -> if v = "ok" then first (j + 1) r
+                              else Printf.sprintf "%s (product %d of %d of one rps factory, rps-per-instance)" v j k in
+        (line, first 0 rs, k >= 2 && List.for_all (fun (_, _, nt) -> nt) rs)
+      end
   | _ -> predict_seq c obs
 
 let () = run_cases predict
